@@ -434,6 +434,27 @@ plumbing:
 					if derr != nil || perr != nil {
 						c.HarnessError("verifier history setup: %v %v", derr, perr)
 					} else {
+						// recorded nonces of OTHER lengths that agree with the supplied challenge as far as they go
+						// (a comparison over the shorter operand, or over a fixed 8 bytes, would accept them)
+						for name, nn := range map[string][]byte{"prefix-4": bytes.Clone(orig[:4]), "challenge+00": append(bytes.Clone(orig), 0x00), "empty": {}, "prefix-7": bytes.Clone(orig[:7])} {
+							ev.Nonce = nn
+							bl, lerr := r.Doc.ToCbor()
+							ev.Nonce = orig
+							if lerr != nil {
+								continue
+							}
+							v := e2e.Verify(p.Store, bl, cval)
+							c.Eval(1)
+							switch {
+							case v.Panic != nil:
+								c.Violation(sec4, "plumbing/verifier-panic", fmt.Sprint(v.Panic), rec, nil)
+							case v.Err == nil && v.Doc != nil:
+								c.Violation(sec4, "plumbing/verifier-accepts-nonce-of-other-length/"+name, fmt.Sprintf("recorded nonce %x (%s) differs from the supplied challenge %x but Verify returns no error", nn, name, cval), rec, nil)
+								c.Outcome(sec4, "NOT-hard-error")
+							default:
+								c.Outcome(sec4, "hard-error")
+							}
+						}
 						blobs := map[byte][]byte{'M': blob, 'D': blobD, 'X': {0xFF, 0x00}}
 						var seqs []string
 						for _, a := range "MDX" {
